@@ -8,6 +8,7 @@ import (
 	"time"
 
 	"github.com/emitter-io/emitter/internal/event"
+	"github.com/emitter-io/emitter/internal/message"
 	"github.com/emitter-io/emitter/verifsim/kernel"
 	"github.com/weaveworks/mesh"
 )
@@ -21,6 +22,7 @@ type Cluster struct {
 	Brokers []*Broker // nil while a node is down
 	Panics  []string  // Gossiper callbacks that panicked (process exit in the real mesh)
 	gen     []int     // restart generation per node
+	routeNet map[string]int
 }
 
 // NodeName is the mesh name of node i.
@@ -31,10 +33,19 @@ func NodeAddr(i int) string { return fmt.Sprintf("10.0.0.%d:4000", i+1) }
 
 // NewCluster creates the simulated mesh and n brokers (not yet linked).
 func NewCluster(c *kernel.Ctx, n int, lic Lic, tweak func(i int, o *BrokerOpts)) *Cluster {
-	cl := &Cluster{C: c, Lic: lic, gen: make([]int, n)}
+	cl := &Cluster{C: c, Lic: lic, gen: make([]int, n), routeNet: map[string]int{}}
+	c.PreLog = append(c.PreLog, func() {
+		for k, v := range cl.routeNet {
+			if v != 0 {
+				c.LogUnordered("  %s net %+d", k, v)
+			}
+			delete(cl.routeNet, k)
+		}
+	})
 	cl.Net = mesh.NewNetwork(mesh.Hooks{
 		Choose: c.Tape.Choose,
 		Log:    func(f string, a ...interface{}) { c.Logf(f, a...) },
+		LogU:   func(f string, a ...interface{}) { c.LogUnordered(f, a...) },
 		Count:  func(k string) { c.Probe(k) },
 		OnPanic: func(where string, v interface{}) {
 			cl.Panics = append(cl.Panics, fmt.Sprintf("%s: %v", where, v))
@@ -43,7 +54,10 @@ func NewCluster(c *kernel.Ctx, n int, lic Lic, tweak func(i int, o *BrokerOpts))
 	mesh.Net = cl.Net
 	for i := 0; i < n; i++ {
 		o := BrokerOpts{Lic: lic, Cluster: true, NodeName: NodeName(i), Advertise: NodeAddr(i),
-			StateDir: filepath.Join(c.Scratch, fmt.Sprintf("state%d", i))}
+			StateDir: filepath.Join(c.Scratch, fmt.Sprintf("state%d", i)), Seed: NodeAddr(0)}
+		if i == 0 {
+			o.Seed = NodeAddr(1)
+		}
 		if tweak != nil {
 			tweak(i, &o)
 		}
@@ -62,6 +76,19 @@ func (cl *Cluster) Start(i int) *Broker {
 	}
 	b := StartBroker(cl.C, o)
 	cl.Brokers[i] = b
+	// observe (never alter) what the swarm tells the broker
+	sw := b.Svc.VerifSwarm()
+	onSub, onUnsub := sw.OnSubscribe, sw.OnUnsubscribe
+	// The order in which the events of one payload are applied follows Go map
+	// iteration; only the net effect per (broker, filter, peer) of a step is logged.
+	sw.OnSubscribe = func(sub message.Subscriber, ev *event.Subscription) bool {
+		cl.routeNet[fmt.Sprintf("b%d: route %v -> %s", i, ev.Ssid, sub.ID())]++
+		return onSub(sub, ev)
+	}
+	sw.OnUnsubscribe = func(sub message.Subscriber, ev *event.Subscription) bool {
+		cl.routeNet[fmt.Sprintf("b%d: route %v -> %s", i, ev.Ssid, sub.ID())]--
+		return onUnsub(sub, ev)
+	}
 	return b
 }
 
@@ -136,7 +163,8 @@ func (cl *Cluster) NetStep() bool {
 		return false
 	}
 	e := evs[cl.C.Tape.Choose(len(evs))]
-	cl.C.Logf("net %s", e)
+	sn, wi := cl.Net.Pending()
+	cl.C.Logf("net %s (of %d enabled; %d sender slots, %d in flight)", e, len(evs), sn, wi)
 	cl.Net.Do(e)
 	synctest.Wait()
 	return true
@@ -161,9 +189,12 @@ func (cl *Cluster) AdvanceNet(d time.Duration) {
 
 // Quiesce: faults have stopped; advance the clock in small steps, running all
 // transport events, until `bound` of simulated time has passed.
-func (cl *Cluster) Quiesce(bound time.Duration) {
+func (cl *Cluster) Quiesce(bound time.Duration, every func(elapsed time.Duration)) {
 	step := 2500 * time.Millisecond
 	for el := time.Duration(0); el < bound; el += step {
+		if every != nil {
+			every(el)
+		}
 		cl.Drain(10000)
 		cl.AdvanceNet(step)
 	}
